@@ -434,7 +434,7 @@ class AncDriver(explore.Driver):
             ut = tuple(sorted((k, np.asarray(v).tobytes())
                               for k, v in ds._usertemp.items()))
         except AttributeError:
-            anc, ut = id(st), None
+            anc, ut = explore.unique_token(), None
         ch = None
         if st.child is not None:
             try:
@@ -446,7 +446,7 @@ class AncDriver(explore.Driver):
                     if k not in ("index",) and not isinstance(v, dict)
                     and hasattr(v, "_array")))
             except Exception:
-                ch = id(st)
+                ch = explore.unique_token()
         return (cfg, anc, ut, ch)
 
 
